@@ -624,3 +624,15 @@ def np_isfinite(eng, st, args, kwargs):
         yield False, st
     else:
         yield map1(eng, st, v, lambda x: True, 'bool'), st
+
+
+@lib('numpy.diff')
+def np_diff(eng, st, args, kwargs):
+    if len(args) > 1 or kwargs:
+        raise OutOfSubset('np.diff with arguments')
+    a = arr_of(eng, st, args[0])
+    if a.ndim != 1:
+        raise OutOfSubset('np.diff of a 2-D array')
+    n = a.shape[0]
+    m = max(n - 1, 0) if isinstance(n, int) else maxv(sub(n, 1), 0)
+    yield new_ref(st, ArrV((m,), lambda i, a=a: sub(a.at(add(i, 1)), a.at(i)), a.dtype if a.dtype != 'bool' else 'int')), st
